@@ -624,7 +624,66 @@ SIMPLE_CLOCK = {"required": {"clock": {"controller": "vivarium.framework.time.Si
                                        "builder_interface": "vivarium.framework.time.TimeInterface"}}}
 
 
+def _stub_matplotlib():
+    """vivarium.examples.boids imports its plotting helpers (matplotlib, not installed here) from the package __init__;
+    the simulation components never use them.  An empty stand-in lets the package import headless - also in the fresh
+    interpreter that loads a backup, because `import probes` runs first there."""
+    import sys
+    import types
+    for name in ("matplotlib", "matplotlib.pyplot", "matplotlib.animation"):
+        if name not in sys.modules:
+            try:
+                __import__(name)
+            except Exception:
+                sys.modules[name] = types.ModuleType(name)
+    if not hasattr(sys.modules["matplotlib.animation"], "FuncAnimation"):
+        sys.modules["matplotlib.animation"].FuncAnimation = object
+
+
+_stub_matplotlib()
+
+
+def example_components(name):
+    """The repository's own example models (imported by module path, so dill pickles them by reference)."""
+    if name == "disease_model":
+        from vivarium.examples.disease_model import (BasePopulation, DeathsObserver, Mortality as ExMortality,
+                                                     Risk, RiskEffect as ExRiskEffect, SISDiseaseModel,
+                                                     TreatmentIntervention, YllsObserver)
+        comps = [BasePopulation(), ExMortality(), SISDiseaseModel("lower_respiratory_infections"), Risk("child_wasting"),
+                 ExRiskEffect("child_wasting", "infected_with_lower_respiratory_infections.incidence_rate"),
+                 TreatmentIntervention("sqlns", "child_wasting.proportion_exposed"), DeathsObserver(), YllsObserver()]
+        config = {"randomness": {"key_columns": ["entrance_time", "age"]},
+                  "population": {"age_start": 0, "age_end": 5},
+                  # the rates of disease_model.yaml scaled up so that a run of a few days sees deaths, infections,
+                  # remissions and untracking
+                  "mortality": {"mortality_rate": 11.4, "life_expectancy": 88.9},
+                  "lower_respiratory_infections": {"incidence_rate": 87.1, "remission_rate": 45.1,
+                                                   "excess_mortality_rate": 63.4},
+                  "child_wasting": {"proportion_exposed": 0.0914},
+                  "effect_of_child_wasting_on_infected_with_lower_respiratory_infections.incidence_rate":
+                      {"relative_risk": 4.63},
+                  "sqlns": {"effect_size": 0.18}}
+        return comps, config
+    if name == "boids":
+        from vivarium.examples.boids import Alignment, Cohesion, Movement, Neighbors, Population, Separation
+        return [Population(), Movement(), Neighbors(), Separation(), Cohesion(), Alignment()], {}
+    raise ValueError(name)
+
+
+def _merge(a, b):
+    for k, v in b.items():
+        if isinstance(v, dict) and isinstance(a.get(k), dict):
+            _merge(a[k], v)
+        else:
+            a[k] = v
+    return a
+
+
 def build(program):
+    if program.get("example"):
+        comps, extra = example_components(program["example"])
+        _, config, plugins = build(dict(program, example=None, components=[{"kind": "recorder"}]))
+        return [Recorder()] + comps, _merge(config, extra), plugins
     comps = []
     for c in program["components"]:
         c = dict(c)
@@ -830,14 +889,40 @@ def table_rows(sim):
 
 
 def components_of(sim, comps=None):
-    """The component instances of a context (for a context restored from a backup: read defensively from the
-    component manager - a private attribute)."""
+    """The component instances of a context.  For a context the harness built: the list it built.  For a context
+    restored from a backup nothing public lists the components of a SimulationContext, so the object graph is searched
+    BY CAPABILITY, not by attribute name: any attribute of the context that offers a callable `list_components()` (the
+    component manager's public method, whatever the attribute is called) - and failing that, any attribute that is
+    itself a Component or a container of Components.  Never raises: an empty list only means "no schedule observed"
+    (the digests, which decide the property, do not need it)."""
     if comps is not None:
         return list(comps)
+    found = []
     try:
-        return list(sim._component_manager.list_components().values())
+        attrs = list(vars(sim).values())
     except Exception:
-        return []
+        attrs = []
+    for a in attrs:
+        try:
+            lister = getattr(a, "list_components", None)
+            if callable(lister):
+                got = lister()
+                found = list(got.values()) if isinstance(got, dict) else list(got)
+                if found:
+                    return found
+        except Exception:
+            continue
+    for a in attrs:
+        try:
+            if isinstance(a, Component):
+                found.append(a)
+            elif isinstance(a, (list, tuple, set)):
+                found += [x for x in a if isinstance(x, Component)]
+            elif isinstance(a, dict):
+                found += [x for x in a.values() if isinstance(x, Component)]
+        except Exception:
+            continue
+    return found
 
 
 def collect(sim, comps=None):
@@ -893,8 +978,18 @@ def run_program(program, env, backup_dir=None):
     heap_churn()
     prior_contexts(env.get("prior", 0))
     if env.get("reset"):
-        boot.reset_contexts()
+        try:
+            boot.reset_contexts()          # clears the context-name cache through a private helper: optional, best effort
+        except Exception:
+            pass
     interactive = driver.startswith("i_")
+    def model_rng():
+        # a MODEL that draws from the global numpy generator when it creates simulants (vivarium.examples.boids does) is
+        # reproducible only from that generator's state: it is part of the program's input, set in every environment
+        # immediately before the population is created (after all pollution; later pollution stays in place)
+        if program.get("np_seed") is not None:
+            np.random.seed(int(program["np_seed"]))
+
     sim, comps = make_context(program, interactive)
     rec = next((c for c in comps if isinstance(c, Recorder)), None)
     stop = stop_time(program)
@@ -908,6 +1003,7 @@ def run_program(program, env, backup_dir=None):
     if driver == "run_simulation":
         sim.step = tap
         pollute(pol, 1)
+        model_rng()
         sim.run_simulation()
         trace, actions, _ = collect(sim, comps)
         out.update(digests=tap.digests, rows=tap.rows, clocks=tap.clocks, results=results_digest(sim),
@@ -916,6 +1012,7 @@ def run_program(program, env, backup_dir=None):
     if driver == "manual":
         sim.setup()
         pollute(pol, 2)
+        model_rng()
         sim.initialize_simulants()
         out["init"], out["rows0"], out["clock0"] = state_digest(sim), table_rows(sim), rec.now() if rec else None
         k = 0
@@ -927,6 +1024,7 @@ def run_program(program, env, backup_dir=None):
             if backup_dir:
                 sim.write_backup(os.path.join(backup_dir, f"{k}.pkl"))
         return _finish(sim, out, tap, comps)
+    model_rng()
     sim.setup()                              # InteractiveContext.setup = setup + initialize_simulants
     out["init"], out["rows0"], out["clock0"] = state_digest(sim), table_rows(sim), rec.now() if rec else None
     sim.step = tap
@@ -991,7 +1089,15 @@ def _cl(items):
     return "[" + "; ".join(items) + "]" if items else "[]"
 
 
-def sched_case(program, drv, clock0, rows0, trace, actions, rows_after, clocks_after, first_step=0):
+def initial_step(program):
+    """the clock's global step BEFORE initialize_simulants recomputes it: DateTimeClock starts from the minimum step,
+    SimpleClock from the standard step (time.py, the two setup methods)"""
+    if program["clock"] == "datetime" or not program.get("std"):
+        return min_step(program)
+    return program["std"]
+
+
+def sched_case(program, drv, clock0, rows0, trace, actions, rows_after, clocks_after, first_step=0, with_init=False):
     """(Gallina literal of type Sim.sched_case, None)  or  (None, reason) when the run is outside the model's domain
     (clock values that are not exact integers: SimpleClock with a non-dyadic step).
     trace/actions entries carry the step number in position 0; steps first_step .. first_step+len(rows_after)-1.
@@ -1011,13 +1117,16 @@ def sched_case(program, drv, clock0, rows0, trace, actions, rows_after, clocks_a
         evs = sorted([t for t in trace if t[0] == k], key=lambda t: t[1])
         if [t[1] for t in evs] != [0, 1, 2, 3]:
             # a step must show exactly the four events once: force a mismatch that Coq reports
-            return "(((0%Z, 0%Z, 0%Z, 0%Z, false), [], 0%Z, [([], [], (0%Z, 0%Z, []), (0%Z, 0%Z, []))]) : sched_case)", None
+            return "(((0%Z, 0%Z, 0%Z, 0%Z, false), [], 0%Z, [([], [], (0%Z, 0%Z, []), (0%Z, 0%Z, []))], None) : sched_case)", None
         et, es = evs[0][4], evs[0][5]
         if any(t[4] != et or t[5] != es for t in evs):
             et = None    # the four events of one step must share time and step size: force a mismatch below
         per_step.append((k, evs, et, es))
     times = [E] + [c[0] for c in clocks_after] + [p[2] for p in per_step if p[2] is not None]
     durs = [m, clock0[1]] + [c[1] for c in clocks_after] + [p[3] for p in per_step]
+    z_init = t_int(initial_step(program)) if with_init else None
+    if with_init:
+        durs.append(z_init)
     if indiv:
         for rows in [rows0] + list(rows_after):
             times += [r[1] for r in rows]
@@ -1040,6 +1149,16 @@ def sched_case(program, drv, clock0, rows0, trace, actions, rows_after, clocks_a
             return _cl(f"({_cz(l)}, {nt(n)}, {nd(z)}, {'true' if t else 'false'})" for l, n, z, t in rows)
         return _cl(f"({_cz(l)}, 0%Z, 0%Z, {'true' if t else 'false'})" for l, n, z, t in rows)
 
+    if program.get("example"):
+        # foreign components keep no action log: what they DID to the schedule state is read off the observed table
+        # (simulants whose tracked flag dropped during the step; the example models create nobody after initialisation)
+        actions, prev = [], {r[0]: r[3] for r in rows0}
+        for j, (k, evs, et, es) in enumerate(per_step):
+            now = {r[0]: r[3] for r in rows_after[j]}
+            gone = sorted(l for l, t in now.items() if not t and prev.get(l, True))
+            if gone:
+                actions.append([k, 0, "untrack", gone])
+            prev = now
     steps = []
     for j, (k, evs, et, es) in enumerate(per_step):
         reacts = []
@@ -1054,7 +1173,10 @@ def sched_case(program, drv, clock0, rows0, trace, actions, rows_after, clocks_a
         et_lit = nt(et) if et is not None else "(-1)%Z"
         steps.append(f"({_cl(reacts)}, {tb}, ({et_lit}, {nd(es)}, {idxs}), ({nt(T1)}, {nd(S1)}, {rows_lit(rows_after[j])}))")
     hdr = f"(0%Z, {nd(clock0[1])}, {nt(E)}, {nd(m)}, {'true' if indiv else 'false'})"
-    return f"(({hdr}, {rows_lit(rows0)}, {_cz(drv)}, {_cl(steps)}) : sched_case)", None
+    # initialize_simulants replayed by the model: start time (= the first clock value, relative 0), the clock's initial
+    # step, the configured population size
+    init = f"(Some (0%Z, {nd(z_init)}, {int(program['pop'])}%nat))" if with_init else "None"
+    return f"(({hdr}, {rows_lit(rows0)}, {_cz(drv)}, {_cl(steps)}, {init}) : sched_case)", None
 
 
 # =====================================================================================================================
@@ -1169,6 +1291,8 @@ def gen_program(rng, max_steps=8, force=None):
 
 def program_tags(program):
     kinds = sorted({c["kind"] for c in program["components"]} - {"recorder", "base_pop"})
+    if program.get("example"):
+        kinds.append("example_" + program["example"])
     tags = [f"kind:{k}" for k in kinds]
     for c in program["components"]:
         for sp in c.get("special") or []:
